@@ -23,6 +23,8 @@ pub enum A {
     Feed,
     Close,
     Consume,
+    /// stop and await the address: the observer for whom the actor has terminated when this returns
+    Halt,
 }
 
 pub struct X {
@@ -43,6 +45,7 @@ fn to_op(a: A, id: u32) -> Op {
         A::Feed => Op::Feed(id),
         A::Close => Op::CloseStream,
         A::Consume => Op::Consume(H::Own(0)),
+        A::Halt => Op::Halt(H::Addr(0)),
     }
 }
 
@@ -141,6 +144,19 @@ fn oracle(s: &ProgScene<X>, t: &Trace) -> Vec<Violation> {
                 st = St::InHandler;
             }
             W::Out(_, _) => st = St::Running,
+        }
+    }
+    // "... and nothing afterwards", as seen from outside: once an observer has been told that the
+    // actor has terminated (its stop-and-await has returned) no callback of that actor is running
+    // or starts to run
+    for o in &an.ops {
+        let (Some(Op::Halt(_) | Op::Await(_)), Some(end)) = (s.clients.get(o.c as usize).and_then(|cs| cs.ops.get(o.i as usize)), o.end) else { continue };
+        crate::check::oblige("nothing-after-the-end");
+        if let Some(late) = t.log.iter().enumerate().skip(end + 1).find_map(|(_, e)| match e.ev {
+            Ev::Enter { a: 0, cb, .. } | Ev::After { a: 0, cb, .. } | Ev::Exit { a: 0, cb, .. } => Some(cb),
+            _ => None,
+        }) {
+            v("nothing-after-the-end", format!("C03/{kind}/callback-after-the-address-resolved"), format!("client {} was told the actor had terminated ({:?}) while its {late:?} callback was still to run or to finish", o.c, o.res));
         }
     }
     // graceful end: the task ended and nothing failed -> the word ends with [finished] stopped
@@ -353,6 +369,23 @@ fn base_cases(tier: Tier) -> Vec<Case> {
             }
         }
     }
+    // an observer that stops the actor and awaits its address, while stopped() (and started())
+    // take a tick: what it is told marks the end - for plain and for stream-attached actors
+    for &mb in mbs {
+        for strat in [Strat::Default, Strat::NonRestartable] {
+            let spawn = SpawnCfg { mailbox: mb, strat, timeout: None };
+            for p in [vec![vec![A::Halt]], vec![vec![A::Send, A::Halt]], vec![vec![A::Call, A::Halt]], vec![vec![A::Halt], vec![A::Send]], vec![vec![A::Halt], vec![A::Halt]], vec![vec![A::CtxStop], vec![A::Halt]]] {
+                v.push(make_case_slow(&p, spawn, Attach::None, None, false, false, 1));
+            }
+        }
+    }
+    for via in [StreamVia::SpawnOnStream, StreamVia::BuildOnStream, StreamVia::BoundedOnStream(1)] {
+        for attach in [Attach::Stream { via, prefill: vec![71], close: false }, Attach::Stream { via, prefill: vec![71, 72], close: true }] {
+            for p in [vec![vec![A::Halt]], vec![vec![A::Send, A::Halt]], vec![vec![A::Halt], vec![A::Call]]] {
+                v.push(make_case_slow(&p, SpawnCfg::plain(Mailbox::U), attach.clone(), None, false, false, 1));
+            }
+        }
+    }
     if tier == Tier::Thorough {
         for &mb in mbs {
             for strat in [Strat::Default, Strat::Recreate, Strat::NonRestartable] {
@@ -433,7 +466,7 @@ pub fn property() -> Property {
     Property {
         id: "C03",
         cases,
-        clauses: &["protocol", "graceful-end", "start-failure", "start-failure-on-restart"],
+        clauses: &["protocol", "graceful-end", "start-failure", "start-failure-on-restart", "nothing-after-the-end"],
         full_rerun_check: true,
         assumptions: &["a restart can be sent to a stream-attached actor only when it was spawned by spawn_on_stream / spawn_owning_on_stream (the stream builder is non-restartable); the stream loop gives up on it, which counts as an abnormal end: such cases are in the stream alphabet with a few fixed programs"],
     }
